@@ -8,6 +8,9 @@ import M4ri.Spec
 import M4ri.Mul
 import M4ri.Elim
 import M4ri.M4riElim
+import M4ri.Io
+import M4ri.Djb
+import M4ri.Mp
 namespace M4ri
 
 abbrev R := Except String
@@ -95,9 +98,7 @@ def runOpW (op : String) (a : Array Val) : R (Array Val × Option (Array Val)) :
     pure (both M (M.xorBits x y n v) (M.toB.sXorBits x y n v.toNat))
   | "and_bits" =>
     let M ← argMat a 0; let x ← argNat a 1; let y ← argNat a 2; let n ← argNat a 3; let v ← argWord a 4
-    -- no specification value: `mzd_and_bits` is not among the operations the properties speak about
-    -- (it ANDs the whole word(s), clearing the neighbouring columns too); model-only correspondence
-    pure (#[.mat (M.andBits x y n v)], none)
+    pure (both M (M.andBits x y n v) (M.toB.sAndBits x y n v.toNat))
   | "clear_bits" =>
     let M ← argMat a 0; let x ← argNat a 1; let y ← argNat a 2; let n ← argNat a 3
     pure (both M (M.clearBits x y n) (M.toB.sClearBits x y n))
@@ -428,6 +429,39 @@ def runOpFin (op : String) (a : Array Val) : R (Array Val × Option (Array Val))
     else
       let spec : Nat := (List.range len).foldl (fun acc i => if w.getLsbD (Q.getD i 0 - base) then acc ||| (1 <<< i) else acc) 0
       pure (#[.word (shrinkBits w Q.toList len base)], some #[.word (BitVec.ofNat 64 spec)])
+  | "png_roundtrip" =>
+    -- write as 1-bit PNG, read back: model = pack/transform/unpack of every row; spec = the matrix itself
+    let M ← argMat a 0
+    let B := M.toB
+    pure (#[.mat (ofB (Io.fromPngRows B.nrows B.ncols (Io.toPngRows B)))], some #[.mat (ofB B)])
+  | "png_corrupt" => pure (#[], none)
+  | "djb" =>
+    -- W A V : compile A, apply to the (zeroed) target W
+    let W ← argMat a 0; let A ← argMat a 1; let V ← argMat a 2
+    let ops := Djb.djbCompile A.toB
+    let tgt : Array Nat := (ops.map fun o => o.target).toArray
+    let src : Array Nat := (ops.map fun o => o.source).toArray
+    let typ : Array Nat := (ops.map fun o => if o.srctyp == .sourceSource then 1 else 0).toArray
+    let res := Djb.djbApply ops W.toB V.toB
+    pure (#[.mat (W.putB res), .perm tgt, .perm src, .perm typ], some #[.mat (W.putB (W.toB.add (A.toB.mul V.toB)))])
+  | "mul_mp" | "addmul_mp" =>
+    -- exact mirror of mp.c (sections in program order; every other order gives the same result: Props.C16)
+    let A ← argMat a 1; let B ← argMat a 2
+    let cutoff ← argInt a 3
+    if A.ncols ≠ B.nrows ∨ cutoff < 0 then throw "die" else
+    let sched : List (Fin 4) := [0, 1, 2, 3]
+    if argIsNull a 0 then
+      if op == "mul_mp" then
+        pure (#[.mat (ofB (Mp.mulMp sched 64 none A.toB B.toB cutoff.toNat))], some #[.mat (ofB (A.toB.mul B.toB))])
+      else throw "die"
+    else
+      let C ← argMat a 0
+      if C.nrows ≠ A.nrows ∨ C.ncols ≠ B.ncols then throw "die" else
+      if op == "mul_mp" then
+        pure (#[.mat (C.putB (Mp.mulMp sched 64 (some C.toB) A.toB B.toB cutoff.toNat))], some #[.mat (C.putB (A.toB.mul B.toB))])
+      else
+        pure (#[.mat (C.putB (Mp.addmulMp sched 64 (some C.toB) A.toB B.toB cutoff.toNat))],
+              some #[.mat (C.putB (C.toB.add (A.toB.mul B.toB)))])
   | "make_table" =>
     -- M r c k : table rows as a matrix of M's width and the index array
     let M ← argMat a 0; let r ← argNat a 1; let c ← argNat a 2; let k ← argNat a 3
